@@ -60,7 +60,27 @@ def _nest_table(cases):
     return sorted(rows)
 
 
+def _relabel_graphql(chk, cases):
+    """A GraphQL 'not a char boundary' panic has two known sources.  The harness labels them all C12-K1
+    (k_graphql_peek_next = the lexer model crashes); the ones on which Coq says that the lexer model gets
+    through and the transcribed dedent_block_string crashes are re-labelled C12-K7 here."""
+    idx = [i for i, c in enumerate(cases) if c.get("oracle") == "fail" and c.get("kid") == "C12-K1"
+           and (c.get("kcoq") or "").startswith("k_graphql_peek_next ")]
+    if not idx:
+        return
+    ok, out = gv.coq_make([gv.vo_target(r) for r in REQ_RUN])
+    if not ok:
+        return                      # standard_flow reports the broken model
+    terms = ["k_graphql_dedent " + cases[i]["kcoq"][len("k_graphql_peek_next "):] for i in idx]
+    vals = gv.coq_eval(PROP + "_k7", REQ_RUN, terms)
+    for i, t, v in zip(idx, terms, vals):
+        if v == "true":
+            cases[i]["kid"] = "C12-K7"
+            cases[i]["kcoq"] = t
+
+
 def _flow(chk, cases, proof):
+    _relabel_graphql(chk, cases)
     mism, unlisted = gv.standard_flow(chk, REQ_RUN, cases, proof, "Lex (lexers, filter arithmetic, index arithmetic)")
     fails = [c for c in cases if c.get("oracle") == "fail"]
     chk.coverage["failure_classes"] = gv.histogram(
